@@ -126,6 +126,30 @@ func c07Classes(small bool) map[string][]c07Sc {
 					Items: c07Items(n, nil), Red: c07Red{Stop: -1, End: 1}, Expect: []string{"value"}})
 			}
 		}
+		// --- generated items that are nil / typed nil / other zero values (still "generated items")
+		if n >= 1 {
+			for _, e := range []string{"MapReduce", "MapReduceVoid", "MapReduceChan", "ForEach"} {
+				for v, first := range []int{0, n / 2, n - 1} {
+					var sp []c07Special
+					used := map[int]bool{}
+					for k, kind := range c07SpecialKinds {
+						// variant 0: nil first; 1: spread from the middle; 2: nil last
+						at := (first + k*2) % n
+						if used[at] {
+							continue
+						}
+						used[at] = true
+						sp = append(sp, c07Special{At: at, Kind: kind})
+					}
+					if v > 0 && first == 0 {
+						continue
+					}
+					add(c07Sc{Class: "generated-zero-value-items", Entry: e, N: n, Workers: w, GenPanicAt: -1, Special: sp,
+						Items: c07Items(n, func(i int, it *c07It) { it.W = 1 + i%2 }),
+						Red:   c07Red{Stop: -1, End: 1}, Expect: c07NormalExpect(e, 1)})
+				}
+			}
+		}
 		if n == ew+1 {
 			// cancel(err) is executing (its drain took the probe item while all workers are parked), THEN the
 			// reducer writes: the statement promises the value only "without cancellation", so the error must win.
@@ -417,7 +441,7 @@ func c07RunClasses(t *testing.T, m *vk.M, base int, small bool, rounds int, name
 	}
 }
 
-var c07CoreClasses = []string{"normal", "reducer-writes-zero-value", "cancel-in-progress+reducer-write", "saturate", "reducer-stops-early", "reducer-early-output", "reducer-writes-twice",
+var c07CoreClasses = []string{"normal", "generated-zero-value-items", "reducer-writes-zero-value", "cancel-in-progress+reducer-write", "saturate", "reducer-stops-early", "reducer-early-output", "reducer-writes-twice",
 	"mapper-cancel", "reducer-cancel", "first-cancel-wins", "mapper-panic", "three-mapper-panics", "generator-panic", "reducer-panic",
 	"ctx-done-mid-run", "ctx-done+generator-keeps-producing", "ctx-done-before-call", "finish-error", "reducer-early-output+late-cancel"}
 
